@@ -38,6 +38,9 @@ type Layout struct {
 	Unsafe  bool   `json:"unsafe,omitempty"`
 	Keep    int    `json:"keep,omitempty"` // numSnapshotsToKeep (0 = default)
 	Mapping string `json:"mapping,omitempty"`
+	// explicit persister / merge-planner options (flush.go); when set they replace what Opts says for that option group
+	PO *PersisterOpts `json:"po,omitempty"`
+	MP *MergePlanOpts `json:"mp,omitempty"`
 }
 
 func DocName(i int) string { return fmt.Sprintf("d%d", i) }
@@ -106,7 +109,11 @@ func Mapping() mapping.IndexMapping {
 // Open creates a fresh index for the layout; dir is the scratch directory to remove afterwards
 // ("" for in-memory layouts).
 func Open(l Layout) (idx bleve.Index, path string, dir string, err error) {
-	m := Mapping()
+	return OpenWith(l, Mapping())
+}
+
+// OpenWith is Open with the caller's index mapping.
+func OpenWith(l Layout, m mapping.IndexMapping) (idx bleve.Index, path string, dir string, err error) {
 	var kvc map[string]interface{}
 	typ, store := scorch.Name, scorch.Name
 	needDir := false
@@ -154,6 +161,12 @@ func ScorchConfig(l Layout) map[string]interface{} {
 		kvc["scorchMergePlanOptions"] = map[string]interface{}{"MaxSegmentsPerTier": 1, "SegmentsPerMergeTask": 2, "FloorSegmentSize": 1}
 	case 4:
 		kvc["scorchPersisterOptions"] = map[string]interface{}{"NumPersisterWorkers": 4, "MaxSizeInMemoryMergePerWorker": 1, "PersisterNapTimeMSec": 5, "PersisterNapUnderNumFiles": 1000}
+	}
+	if l.PO != nil {
+		kvc["scorchPersisterOptions"] = l.PO.config()
+	}
+	if l.MP != nil {
+		kvc["scorchMergePlanOptions"] = l.MP.config()
 	}
 	if l.SegVer != 0 {
 		kvc["forceSegmentType"] = "zap"
